@@ -141,8 +141,16 @@ func unquoteString(b []byte) ([]byte, int) {
 		if err != nil {
 			break
 		}
-		res = append(res, string(ch)...)
+		if ch == utf8.RuneError && len(str)-len(tail) == 1 {
+			// invalid UTF-8, keep the original byte
+			res = append(res, str[0])
+		} else {
+			res = append(res, string(ch)...)
+		}
 		str = tail
+	}
+	if len(str) == len(b) {
+		return nil, 0
 	}
 	return res, len(b) - len(str)
 }
